@@ -418,6 +418,7 @@ def replay(vectors, plans, start_id=0):
             nid += len(ch)
     if not jobs:
         return []
+    common.settle_memory()
     ctx = mp.get_context("fork")
     with ctx.Pool(common.NCPU) as pool:
         res = pool.map(_replay_chunk, jobs)
